@@ -6,7 +6,7 @@
    reachable from the start of process() with t tasks, n source items, concurrency c
    by ANY interleaving of these transitions.  The log is newest-first. *)
 From Coq Require Import List Arith Bool.
-From Wpull Require Import Model.Pipeline Proofs.PipelineBase Proofs.PipelineSafety Proofs.PipelineStop Proofs.PipelineLive Proofs.PipelineOnce Proofs.PipelineTerm.
+From Wpull Require Import Model.Pipeline Proofs.PipelineBase Proofs.PipelineSafety Proofs.PipelineStop Proofs.PipelineLive Proofs.PipelineOnce Proofs.PipelineTerm Proofs.PipelineErr.
 Import ListNotations.
 
 (* every (start|end, item, task) event is logged at most once *)
@@ -59,6 +59,15 @@ Theorem C13_no_bad_stuck :
 Proof. exact no_bad_stuck. Qed.
 Print Assumptions C13_no_bad_stuck.
 
+(* a failure in the source surfaces as an error: once the producer has ended with the source's
+   exception (P_raised), a finished process() has raised - it can not have returned.  (With
+   C13_no_bad_stuck: it does finish.)  A task exception makes the main coroutine raise at its
+   next wait on the workers (transition M_wait_first -> M_raised of the model). *)
+Theorem C13_source_error_surfaces :
+  forall t n c s, reachable t n c s -> prod s = P_raised -> finished s = true -> mainpc s = M_raised.
+Proof. exact source_error_surfaces. Qed.
+Print Assumptions C13_source_error_surfaces.
+
 (* exactly once unless stopped: if no stop() was requested and process() returned, the producer
    ended by itself (the source answered None with nothing unfinished) and every item the source
    yielded (ids 1 .. next_item-1) was started and ended in every task 0..t-1 - with NoDup (log s)
@@ -87,6 +96,17 @@ Theorem C13_every_execution_finite :
                count_progress ls + Phi t s' <= Phi t s).
 Proof. intros t n c. split; [exact (every_execution_finite t n c)|exact (bounded_progress t n c)]. Qed.
 Print Assumptions C13_every_execution_finite.
+
+(* returns once the source is exhausted: when the source is honest (it answers None only when it
+   has nothing left; [honest] checks that along the run) and no stop() was requested, a returned
+   process() has taken all n items from the source and run every task on each of them *)
+Theorem C13_returns_when_source_exhausted :
+  forall t n c ls s,
+    run t (init n c) ls = Some s -> ~ In E_stop ls -> honest t (init n c) ls = true -> mainpc s = M_returned ->
+    src_left s = 0 /\ next_item s = S n /\
+    forall i k, 1 <= i <= n -> k < t -> In (Start i k) (log s) /\ In (End_ i k) (log s).
+Proof. exact returns_when_exhausted. Qed.
+Print Assumptions C13_returns_when_source_exhausted.
 
 (* non-vacuity: 2 tasks, 2 items, concurrency 1; stop() arrives while item 1 is in its second
    task and item 2 is queued: item 1 finishes (two events after the stop), item 2 is never
@@ -117,7 +137,8 @@ Definition C13_example_run_nostop : list label :=
    L_worker 0; E_task_done 2; L_worker 0; E_task_done 2; L_worker 0; E_src_none; L_prod; L_worker 0; L_main].
 Example C13_nonvacuous_nostop :
   exists s, run 2 (init 2 1) C13_example_run_nostop = Some s /\ ~ In E_stop C13_example_run_nostop /\
-            mainpc s = M_returned /\ next_item s = 3 /\ length (log s) = 8.
+            mainpc s = M_returned /\ next_item s = 3 /\ length (log s) = 8 /\
+            honest 2 (init 2 1) C13_example_run_nostop = true.
 Proof.
   eexists. split; [vm_compute; reflexivity|]. split; [|repeat split].
   cbn. intuition discriminate.
@@ -128,3 +149,11 @@ Qed.
 Example C13_potential_value :
   Phi 2 (init 2 1) = 58 /\ count_progress C13_example_run = 14 /\ forallb no_conc C13_example_run = true.
 Proof. vm_compute. repeat split; reflexivity. Qed.
+
+(* non-vacuity of the error clause: the source raises on the second get_item(); the in-flight item
+   finishes, process() raises *)
+Example C13_source_error_example :
+  exists s, run 1 (init 3 1) [L_main; L_prod; E_src_item; L_prod; L_worker 0; E_src_raise; L_prod; E_task_done 1;
+                              L_worker 0; L_main] = Some s /\
+            prod s = P_raised /\ mainpc s = M_raised /\ log s = [End_ 1 0; Start 1 0].
+Proof. eexists. split; [vm_compute; reflexivity|]. repeat split. Qed.
